@@ -93,8 +93,40 @@ def step_at(cls, fam, v):
     return res
 
 
+def _fast_step(cls, fam, v):
+    """Float approximation of step_at, never larger than the exact step (used only to accept quickly)."""
+    if fam == "f16":
+        x = abs(v * 100.0) * (1 - 1e-9)
+        e = 0
+        while e < 15 and x > 2047 * (1 << e):
+            e += 1
+        return (1 << e) / 100
+    if fam == "f32":
+        a = abs(v)
+        if a == 0 or a > 3.5e38:
+            return 0.0
+        ulp = math.ldexp(1.0, max(math.frexp(a)[1] - 1, -126) - 23)
+        dec = 10.0 ** (math.floor(math.log10(a) - 1e-9) + 1 - 7)
+        return max(ulp, dec)
+    res = float(cls.resolution)
+    if fam == "scaling":
+        return max(res, (cls.value_max - cls.value_min) / 255)
+    return res
+
+
 def verdict(cls, fam, v, st, p, st2, v2):
     """None or violation text."""
+    # fast path: clearly fine (in range, right shape, decoded value in range and well within one step);
+    # everything else goes through the exact rational check below
+    if st == "ok" and st2 == "ok" and v == v and v2 == v2:
+        lo, hi = cls.value_min, cls.value_max
+        if lo <= v <= hi and lo <= v2 <= hi and type(p) is DPTArray and len(p.value) == cls.payload_length:
+            d = abs(v2 - v)
+            if isinstance(d, int):
+                if d < cls.resolution and all(type(b) is int and 0 <= b <= 255 for b in p.value):
+                    return None
+            elif d < 0.99 * _fast_step(cls, fam, v) and all(type(b) is int and 0 <= b <= 255 for b in p.value):
+                return None
     if st.startswith("other:"):
         return f"to_knx({v!r}) raised {st[6:]} (not a conversion error)"
     if st == "parse":
